@@ -51,9 +51,16 @@ int parse_int (string s) {
 }
 
 void run (string s) {
-  foreach (string op in explode (s, ";")) {
-    do_op (op);
-    if (!this_object ()) return;   // destructed itself: the script stops
+  string me = oid;
+  string *ops = explode (s, ";");
+  int i;
+  for (i = 0; i < sizeof (ops); i++) {
+    do_op (ops[i]);
+    if (!this_object ()) {
+      // destructed itself: the script stops - except that an error can still be raised on the way out
+      if (i + 1 < sizeof (ops) && ops[i + 1] == "err") error ("boom " + me + "\n");
+      return;
+    }
   }
 }
 
